@@ -21,6 +21,20 @@ NA = {
 }
 
 CHECKS = {
+ 'C12': dict(
+   engine='namematch',
+   category='other',
+   text='Bounded exhaustive, labelled bounded and never counted as proved: uscxml::nameMatch (String.cpp) and its copy in the generated-C scaffolding (test-gen-c.cpp) are extracted mechanically to C on every run (std::string operations -> fixed-capacity shim asserting std::string preconditions) and CBMC decides, for ALL descriptor lists and event names up to length L (6 quick / 8 thorough) over the full 8-bit alphabet with unwinding assertions: result == spec function transcribed from Recommendation 3.12.1 (O_sound, O_complete) on well-formed inputs, no std::string precondition violated and termination on arbitrary strings, and both copies agree (O_same). Counterexamples are replayed natively on the real String.cpp and the verbatim scaffold text. The Trie-based static resolution in the Promela/VHDL back ends is not covered.',
+   note='Trusted: extraction rules + vstr shim ("C" locale), spec nm_spec.h, CBMC. Bound: string length <= L; complete inside the bound.',
+   technique='bounded CBMC (unwinding assertions) on mechanically extracted C against a Recommendation-derived spec function; native replay on the real code',
+   design='3/C12'),
+ 'C17': dict(
+   engine='pmlarms',
+   category='proof',
+   text='Each operator arm of PromelaDataModel::evaluateExpr is extracted mechanically to C on every run and verified loop-free over the full 2^32 x 2^32 operand domain, once per arity the grammar produces: value equals C int arithmetic as the Promela manual defines it, an execution error is raised exactly for faulting operations (/ and % by zero, INT_MIN/-1), no arm takes an operand the parser did not supply, every operator of the property has an arm. Loop-free + full domain = complete proof of these per-arm contracts. Precedence/associativity (bison), operand order, variable storage and read-back are outside the reach of contracts on C text and are NOT claimed.',
+   note='Trusted: extraction rules (pml_extract.py), spec pml_spec.h, Data(int)/dataToInt round trip, CBMC + z3 4.8.12 for the * / % arms. Assumed: integer-valued operands; left operand = textually first *opIter++ (unsequenced in C++); two\'s-complement wrap of + - *.',
+   technique='CBMC (SAT, z3 for mult/div congruence) on mechanically extracted loop-free arms, full operand domain; native replay through the real interpreter',
+   design='3/C17'),
  'C15': dict(
    engine='jsmn+jsonstr',
    category='proof',
@@ -63,6 +77,8 @@ def main():
         },
         'engines': [
             {'name': 'jsmn', 'path': 'engines/jsmn', 'serves_properties': ['C15'], 'kind_free_text': 'CBMC contracts on the unmodified C file (route R1)'},
+            {'name': 'namematch', 'path': 'engines/extract', 'serves_properties': ['C12'], 'kind_free_text': 'rule-based extraction of C++ leaf functions to C (route R3) + bounded CBMC'},
+            {'name': 'pmlarms', 'path': 'engines/extract', 'serves_properties': ['C17'], 'kind_free_text': 'rule-based extraction of switch arms to C (route R3) + CBMC over the full operand domain'},
         ],
         'checks': checks,
         'not_applicable': na,
